@@ -274,7 +274,7 @@ class Gen:
         h = self.new_h()
         spell = spell or self.choice(od.spellings)
         ev = {"k": "op", "op": op, "out": h, "args": refs, "p": p, "spell": spell}
-        if constant is not None and not (constant is False and out.dtype.kind != "f"):
+        if constant is not None and not (constant is False and out.dtype.kind != "f") and op != "getitem":
             ev["constant"] = constant
         ev.update(extra)
         self.emit(ev)
